@@ -310,7 +310,30 @@ pub fn def() -> PropDef {
         assumptions: &["the receiver channel is built with the public setters only"],
         abort_possible: true,
         parts: |tier| {
-            vec![part(
+            vec![
+                // every value of the padding length byte on short chunks, where it can equal or straddle the offset of
+                // the signature (genuine signature, so the padding check itself is reached)
+                part_enum(
+                    "padding_length_byte_exhaustive",
+                    |tier| {
+                        let payloads: Vec<u16> = if tier == Tier::Quick { vec![0, 1, 7, 16, 40, 100] } else { (0..180).collect() };
+                        let mut v = Vec::new();
+                        for pm in 0u8..11 {
+                            let (_, mode) = fixtures::policy_mode(pm as usize);
+                            if mode != MessageSecurityMode::SignAndEncrypt {
+                                continue;
+                            }
+                            for payload in &payloads {
+                                for b in 0u16..256 {
+                                    v.push(Case { receiver_is_server: b % 2 == 0, pm, keys_derived: true, own_cert: true, remote_cert: true, asymmetric: false, payload: *payload, mutation: Mutation::PaddingByte(b as u8, (b / 7) as u8), via_transport: false });
+                                }
+                            }
+                        }
+                        Box::new(v.into_iter())
+                    },
+                    check,
+                ),
+                part(
                 "receive",
                 tier.pick(6_000, 200_000),
                 (any::<bool>(), 0u8..11, proptest::bool::weighted(0.8), proptest::bool::weighted(0.8), proptest::bool::weighted(0.8), proptest::bool::weighted(0.4), any::<u16>(), mutation(), proptest::bool::weighted(0.3))
